@@ -3,4 +3,5 @@ pub mod checks;
 pub mod gen_values;
 pub mod glue;
 pub mod runner;
+pub mod topo;
 pub mod wire;
